@@ -16,7 +16,7 @@ def run(ctx):
     t, grid = rl.tables(ctx)
     res, scns = rl.mc(ctx, "Record_MC_forged", classes=["cbc10", "tls12"], forged=True,
                       sizes=[0, 1, 100, 16385, 20000], reads=[0, 1, 100, 32768],
-                      maxops=3 if ctx.quick else 4, maxw=3, workers=8)
+                      maxops=3 if ctx.quick else 4, maxw=3, workers=1 if ctx.quick else 8)
     by_class = {}
     for s in scns:
         by_class.setdefault(s["class"], []).append(s["ops"])
@@ -52,7 +52,8 @@ def run(ctx):
             sig = "forged:%s:%s" % (why, k)
         ctx.finding(sig, "MakeConnWithCompleteHandshake(version 0x%04x, suite 0x%04x, weak=%s): %s" % (j["vers"], j["suite"], j["weak"], why),
                     dict(rl.first_bad_event(out["by"][sc], why), scenario=j["ops"]))
-    rl.need(out["stats"], ["Init.forged", "Init.nil", "Init.free", "Write", "Write.multi", "Read.data", "Read.partial", "Read.timeout", "Nonce"], "C27")
+    if not out["rej"]:    # (with reproduced rejections the verdict stands on those)
+        rl.need(out["stats"], ["Init.forged", "Init.nil", "Init.free", "Write", "Write.multi", "Write.split", "Read.data", "Read.partial", "Read.timeout", "Nonce"], "C27")
     work = [c for c in cells if c["expect"] == "work"]
     cov = {"evaluations": out["events"], "distinct_nontrivial": len({(j["vers"], j["suite"], j["weak"], str(j["ops"])) for j in jobs}),
            "rule": "every (version 1.0-1.2, suite id of any table + neighbours + extremes, weak off/on) cell forged on both ends; %d TLC-generated "
